@@ -14,6 +14,7 @@ import numpy
 from harness.common import Check, run_main, seed
 from harness import phonon_common as PC
 from symnum import sym as S, solver as Z, executor as X
+from symnum.npproxy import NumpyProxy, patched
 from symnum.sym import Sym, SymError, symvars, new_context
 
 REPLAY_RTOL = 1e-6
@@ -85,11 +86,13 @@ def run_shape(chk, ns, nq, np_, nv, n_sym_T, acoustic_zero=True, tgrid="T0-first
     ej = symvars("ej", (nv,), positive=True, lo=0, hi=1)
 
     def run():
-        L = ns.LongitudinalElasticModulusPhononContribution(d, (ei, ei))
-        O = ns.OffDiagonalElasticModulusPhononContribution(d, (ei, ej))
-        return dict(
-            long_zp=L.zero_point_contribution, long_th=L.thermal_contribution, long_iso=L.value_isothermal,
-            off_zp=O.zero_point_contribution, off_th=O.thermal_contribution, off_iso=O.value_isothermal)
+        # the module's numpy is the proxy (arrays it allocates itself -- zeros, full, ... -- can hold symbols; a non-finite fill is a poisoned value)
+        with patched((ns, {"numpy": NumpyProxy()})):
+            L = ns.LongitudinalElasticModulusPhononContribution(d, (ei, ei))
+            O = ns.OffDiagonalElasticModulusPhononContribution(d, (ei, ej))
+            return dict(
+                long_zp=L.zero_point_contribution, long_th=L.thermal_contribution, long_iso=L.value_isothermal,
+                off_zp=O.zero_point_contribution, off_th=O.thermal_contribution, off_iso=O.value_isothermal)
 
     rng = random.Random(seed() * 7919 + nq * 100 + np_)
     reported = set()
